@@ -170,7 +170,7 @@ def single_file_source(lib: Lib, order: list[str], variants: dict[str, str] | No
 
 # ---- worlds --------------------------------------------------------------------------------------
 
-DIRS = ["/proj/SCRIPT", "/proj/SCRIPT/lib", "/proj/macros", "/proj/macros/sub", "/opt/shared", "/opt/shared/deep/er"]
+DIRS = ["/proj/SCRIPT", "/proj/SCRIPT/lib", "/proj/macros", "/proj/macros/sub", "/opt/shared", "/opt/shared/deep", "/opt/shared/deep/er", "/opt/shared/deep/er"]
 
 
 class World:
